@@ -10,9 +10,13 @@
 EXTENDS WebIde, Json
 CONSTANTS PathLen, Mode      \* Mode: "mc" | "paths" | "export" | "exportpaths"
 
-PathsHold == Mode = "paths" => (PrintT(<<"PATHS", Cardinality(SeqsUpTo(Comps, PathLen)) - 1>>) /\ Confinement(PathLen))
+PathsHold == (Mode = "paths" /\ nops = 0) =>
+               /\ PrintT(<<"PATHS", Cardinality(SeqsUpTo(Comps, PathLen)) - 1>>)
+               /\ PrintT(<<"ESCAPES", ToJson(Escapes(PathLen))>>)
+               /\ Confinement(PathLen)
 Done == nops = MaxOps /\ lock = Free /\ \A s \in Sessions : Idle(s)
 Export == (Mode = "export" /\ Done) => PrintT(<<"SCRIPT", ToJson([steps |-> hist])>>)
-ExportPaths == Mode = "exportpaths" =>
-                 \A p \in SeqsUpTo(Comps, PathLen) \ {<<>>} : PrintT(<<"SCRIPT", ToJson([path |-> p])>>)
+ExportPaths == (Mode = "exportpaths" /\ nops = 0) =>
+                 /\ PrintT(<<"TREE", ToJson(Tree)>>)
+                 /\ \A p \in SeqsUpTo(Comps, PathLen) \ {<<>>} : PrintT(<<"SCRIPT", ToJson([path |-> p])>>)
 =============================================================================
